@@ -49,13 +49,17 @@ static void ev_medfilt(Json& js, const std::vector<long>& x, int n) {
 }
 // MedianFilter with larger orders, a few framings
 static void ev_medianfilter(Json& js, vh::Rng& rng, int n, long init, const std::vector<long>& x) {
-    MedianFilter f(n, (double)init);
+    // every third stream is expressed in a very small or a very large unit (a power of two, so nothing is rounded): the median
+    // of the window does not depend on the unit, distinct samples stay distinct however close they are in absolute terms
+    static long cnt = 0;
+    const double unit = (++cnt % 3 == 0) ? std::ldexp(1.0, (cnt % 2) ? -70 : 60) : 1.0;
+    MedianFilter f(n, (double)init * unit);
     std::vector<long> y2;
     size_t pos = 0;
     while (pos < x.size()) {
         size_t fl = std::min<size_t>(x.size() - pos, (size_t)rng.range(1, 2 * n));
         std::vector<long> fr(x.begin() + pos, x.begin() + pos + fl);
-        auto y = ints(f.process(to_arr(fr)), 2);
+        auto y = ints(f.process(to_arr(fr) * unit) / unit, 2);
         y2.insert(y2.end(), y.begin(), y.end());
         pos += fl;
     }
@@ -152,12 +156,18 @@ int main(int argc, char** argv) {
     } else if (mode == "random") {
         for (long t = 0; t < budget; ++t) {
             const int n = (int)rng.range(1, maxlen);
-            const int kind = (int)rng.range(0, 4);
+            const int kind = (int)rng.range(0, 7);
             std::vector<long> x(n);
+            const int run = n / 2 + 1 + (int)rng.range(0, std::max(0, n / 3));   // length of an ordered leading run
             for (int i = 0; i < n; ++i) {
-                x[i] = kind == 0 ? rng.range(-1000, 1000) : kind == 1 ? rng.range(-3, 3) : kind == 2 ? i - n / 2 : kind == 3 ? n - i : 7;
+                x[i] = kind == 0 ? rng.range(-1000, 1000) : kind == 1 ? rng.range(-3, 3) : kind == 2 ? i - n / 2 : kind == 3 ? n - i
+                     : kind == 4 ? 7
+                     : kind == 5 ? (i < run ? 3 * i : rng.range(-50, 3 * n))            // ascending run, then an unordered tail
+                     : kind == 6 ? (i < run ? 3 * (n - i) : rng.range(-50, 3 * n))      // descending run, then an unordered tail
+                                 : (i == 0 ? rng.range(-5, 3 * n) : 3 * i);             // sorted except for the first element
             }
-            ev_sort(js, x, rng.coin());
+            ev_sort(js, x, true);
+            ev_sort(js, x, false);
             ev_median(js, x);
             if (n >= 3) {
                 ev_medfilt(js, x, (int)rng.range(3, std::min(n, 64)));
